@@ -83,51 +83,39 @@ def r2(F, R):
         ladt, lvar = leaf(w.ctx)
         R.check(st == frozenset(["InProgress"]), f"window/{w.name}{w.op}@{ladt}::{lvar}",
                 w.site, "counts only while InProgress", f"`{w.name}` is written while state ∈ {sorted(st) if st else 'any'} (replayed events would be counted)")
-    he = [b for b in bodies if b.is_coroutine and F.root_fn(b) is root]
-    if len(he) != 1:
-        raise Unverifiable("handle_event coroutine not unique")
-    co = he[0]
-    # state transitions
-    sw = [(s, st) for s, st in co.assigns(lambda st: W.self_field_path(F, co, st["pl"], SUM) == ("state",))]
-    trans = {}
-    for s, st in sw:
-        sl = A.slice_back(co, A.rvalue_operands(st["rv"]))
-        vs = [rv["variant"] for _, rv in sl.aggs if rv.get("adt") == "writer::summarize::State"]
-        if st["rv"]["k"] == "agg" and st["rv"].get("adt") == "writer::summarize::State":
-            vs = [st["rv"]["variant"]]
-        ctx = W.context(F, co, s, bodies, root)
-        trans[tuple(vs)] = (s, ctx)
-    fin = trans.get(("FinishedButNotOutput",))
-    R.check(fin is not None and fin[1].get("event::Cucumber") == frozenset(["Finished"]) and fin[1].get("writer::summarize::State") == frozenset(["InProgress"]),
-            "finished-advances-state", fin[0] if fin else co, "Cucumber::Finished: InProgress -> FinishedButNotOutput",
-            "the state is not advanced to FinishedButNotOutput exactly on Cucumber::Finished")
-    out = trans.get(("FinishedAndOutput",))
-    R.check(out is not None and out[1].get("writer::summarize::State") == frozenset(["FinishedButNotOutput"]), "output-advances-state",
-            out[0] if out else co, "FinishedButNotOutput -> FinishedAndOutput", "the state is not advanced to FinishedAndOutput before writing the summary")
-    # inner handle_event exactly once on every path
-    inner = [(s, t) for s, t in co.calls(lambda t: callee_is(t, r"Writer::handle_event$") or (op_fn(t["func"]) or {}).get("trait") == "writer::Writer")]
-    R.check(len(inner) == 1, "inner-once/sites", co, "", f"{len(inner)} inner handle_event call sites")
-    if len(inner) == 1:
-        s_in = inner[0][0]
-        R.check(not co.entry_reaches_return(stop=[s_in]), "inner-once/every-path", s_in, "every path forwards the event",
-                "a path through Summarize::handle_event returns without forwarding the event to the inner writer")
-        R.check(not co.in_cycle(s_in), "inner-once/not-in-loop", s_in, "", "the inner handle_event call is inside a loop")
-        # the forwarded event is the received one
-        sl = A.slice_back(co, [inner[0][1]["args"][1]])
-        R.check(bool(sl.upvars or sl.params or True), "inner-once/same-event", s_in, "")
-        # summary write
-        wr = [(s, t) for s, t in co.calls(lambda t: (op_fn(t["func"]) or {}).get("trait") == "writer::Arbitrary")]
-        R.check(len(wr) == 1, "summary-once/sites", co, "", f"{len(wr)} summary write call sites")
-        if len(wr) == 1:
-            s_w = wr[0][0]
-            ctx = W.context(F, co, s_w, bodies, root)
-            R.check(ctx.get("writer::summarize::State") == frozenset(["FinishedButNotOutput"]), "summary-once/state", s_w,
-                    "summary written only in FinishedButNotOutput", f"summary is written in state {sorted(ctx.get('writer::summarize::State', ['any']))}")
-            R.check(co.dominates(s_in, s_w), "summary-once/after-inner", s_w, "summary follows the forwarding of Finished",
-                    "the summary is written before the event is forwarded to the inner writer")
-            R.check(out is not None and co.dominates(out[0], s_w), "summary-once/after-state-advance", s_w, "state advanced before writing",
+    # the state machine, the forwarding and the summary: on the handler's deep path table (writers_deep.py)
+    T = WD.table(F, SUM)
+    co = T.co
+    n_fin = n_out = 0
+    for r in T.rows:
+        p = r.p
+        st_in = r.ctx.get("writer::summarize::State")
+        inner = [i for i, e in enumerate(p.effects) if e[0] == "await" and e[1][0] == "call" and re.search(r"Writer::handle_event$", e[1][1])]
+        summ = [i for i, e in enumerate(p.effects) if e[0] == "await" and e[1][0] == "call" and re.search(r"Arbitrary::write$", e[1][1])]
+        sw = [(i, e[2][2]) for i, e in enumerate(p.effects) if e[0] == "write" and T.self_path(e[1]) == ("state",) and D.is_variant(e[2], "writer::summarize::State")]
+        R.check(len(inner) == 1 and not p.cut, "inner-once/every-path", co, "every path forwards the event exactly once",
+                f"a path through Summarize::handle_event forwards the event {len(inner)} times to the inner writer")
+        if inner:
+            ev = p.effects[inner[0]][1][2][1]
+            R.check(ev == T.event_root or D.mentions(ev, lambda x: x == T.event_root), "inner-once/same-event", co, "forwards the received event", "the forwarded event is not the received one")
+        fbno = [x for x in sw if x[1] == "FinishedButNotOutput"]
+        fao = [x for x in sw if x[1] == "FinishedAndOutput"]
+        other = [x for x in sw if x[1] not in ("FinishedButNotOutput", "FinishedAndOutput")]
+        is_finished_ev = r.ctx.get("event::Cucumber") == frozenset(["Finished"]) and st_in == frozenset(["InProgress"])
+        R.check(bool(fbno) == is_finished_ev and not other, "finished-advances-state", co, "Cucumber::Finished: InProgress -> FinishedButNotOutput",
+                "the state is not advanced to FinishedButNotOutput exactly on Cucumber::Finished (while InProgress)")
+        n_fin += 1 if fbno else 0
+        pending = bool(fbno) or st_in == frozenset(["FinishedButNotOutput"])
+        R.check(bool(fao) == pending and (not fao or not fbno or fbno[0][0] < fao[0][0]), "output-advances-state", co, "FinishedButNotOutput -> FinishedAndOutput",
+                "the state is not advanced to FinishedAndOutput exactly when it is FinishedButNotOutput")
+        R.check(bool(summ) == pending and len(summ) <= 1, "summary-once/state", co, "summary written only in FinishedButNotOutput",
+                f"the summary is written {len(summ)} times on a path whose state is {'pending output' if pending else 'not pending output'}")
+        if summ:
+            n_out += 1
+            R.check(bool(inner) and inner[0] < summ[0], "summary-once/after-inner", co, "summary follows the forwarding of Finished", "the summary is written before the event is forwarded to the inner writer")
+            R.check(bool(fao) and fao[0][0] < summ[0], "summary-once/after-state-advance", co, "state advanced before writing",
                     "the summary write is not preceded by the transition to FinishedAndOutput (it could be written twice)")
-            R.check(not co.in_cycle(s_w), "summary-once/not-in-loop", s_w, "")
+    R.check(n_fin >= 1 and n_out >= 1, "summary-once/sites", co, "", f"{n_fin} paths advance the state on Finished, {n_out} write the summary")
     R.floor(20)
 
 
